@@ -180,6 +180,13 @@ func (op _OpcodeType) decodeI(x uint32) (as abi.As, arg *abi.AsArgument, argRaw 
 	for i, ctx := range _AOpContextTable {
 		if ctx.Opcode == op {
 			if ctx.Funct3 == funct3 {
+				if ctx.HasShamt {
+					// the upper immediate bits select srli/srai; the rest is the shamt
+					if (uint32(imm)>>6)&0b_11_1111 != ctx.Funct7>>1 {
+						continue
+					}
+					arg.Imm = imm & 0b_11_1111
+				}
 				as = abi.As(i)
 				break
 			}
